@@ -68,13 +68,20 @@ def run(check, tier, seed, scratch):
     check.cov['model_counterexamples'] = len(cex)
     up, cu = Universe(UP), algebra.CaseUniverse()
     maxnames = 2 if quick else 3
+    # deeper signatures: the positional buckets of _mask only interact with >= 2 positional-only AND >= 2 regular parameters
+    import random
+    U4 = tlc.export_universe(scratch, 'abcd', ['args'], ['kwargs'], 4)
+    U4s = random.Random(seed + 4).sample([ps for ps in U4 if sum(1 for p in ps if p['k'] in ('po', 'pok')) >= 3], 120 if quick else 3000)
+    u4 = Universe(U4s)
     gen = alggen.chain(alggen.mask_events(up, UP, hide='all', sample_hide=0.15 if quick else 0.5, seed=seed, maxnames=2),
+                       alggen.mask_events(u4, U4s, tag='mask4', hide='none', maxnames=1), law_gen(u4, U4s, 1),
                        law_gen(up, UP, maxnames), alggen.cex_events(cu, 'mask', cex))
     run_trace_leg(check, scratch, 'mask+laws', gen, WANT, classify=classify)
     check.cov['exhaustive'] = True
     check.cov['rule'] = ('every signature of the %d-signature universe x n in 0..len+2 x duplicate-free name tuples (<=2, every order) over its '
                          'names + a foreign one, flag-free exhaustively and the 15 hide-flag sets on a seeded sample; laws zero/compose/order '
-                         '(<=%d names, all permutations)/hide-only-removes on every signature; distinct by (inputs, flags)' % (len(UP), maxnames))
+                         '(<=%d names, all permutations)/hide-only-removes on every signature; plus %d seeded signatures with >= 3 positional parameters from the universe of <= 4 named; '
+                         'distinct by (inputs, flags)' % (len(UP), maxnames, len(U4s)))
     check.assumptions += ['names naming a positional-only parameter are excluded (as the property says)', 'PyBind!Accepts validated by C20']
 
 
